@@ -21,7 +21,8 @@ func (p Parser) tokOrd() bool {
 	return p.CurrentToken.Span.Start.Index <= p.CurrentToken.Span.End.Index &&
 		p.PreviousToken.Span.Start.Index <= p.PreviousToken.Span.End.Index &&
 		p.PreviousToken.Span.End.Index <= p.CurrentToken.Span.End.Index &&
-		int(p.CurrentToken.Span.End.Index) <= p.Lexer.VIndex()
+		int(p.CurrentToken.Span.End.Index) <= p.Lexer.VIndex() &&
+		p.CurrentToken.Kind <= lexer.Identifier && p.PreviousToken.Kind <= lexer.Identifier
 }
 
 // M is the termination measure of the parser: the characters the lexer has
